@@ -681,10 +681,11 @@ fn redim_keeps_type_programs() -> Vec<(String, String)> {
     let mut out = vec![];
     for (ty, v1, v2, shown) in [("INTEGER", "2.75", "3.25", " 3  3 "), ("LONG", "70000.25", "70001.25", " 70000  70001 "), ("SINGLE", "1.5", "2.5", " 1.5  2.5 "), ("DOUBLE", "2.25#", "4.25#", " 2.25  4.25 "), ("STRING", "\"alpha\"", "\"gamma\"", "alphagamma")] {
         for head in ["", "DEFINT A-Z\n", "DEFLNG A-Z\n", "DEFDBL A-Z\n", "DEFSTR A-Z\n", "DEFSTR W\n"] {
-            for (form, second) in [(0, "REDIM Words(1 TO 3)"), (1, "REDIM Words(0 TO 4, 1 TO 2)"), (2, "REDIM SHARED Words(1 TO 3)")] {
+            for (form, second) in [(0, "REDIM Words(1 TO 3)"), (1, "REDIM Words(-1 TO 4)"), (2, "REDIM SHARED Words(1 TO 3)")] {
                 let first = if form == 2 { format!("REDIM SHARED Words(1 TO 2) AS {}", ty) } else { format!("REDIM Words(1 TO 2) AS {}", ty) };
-                let (c1, c3) = if form == 1 { ("Words(1, 1)", "Words(3, 2)") } else { ("Words(1)", "Words(3)") };
-                let old = if form == 1 { "Words(1)" } else { c1 };
+                // (the number of dimensions cannot change: QBasic and the implementation reject that)
+                let (c1, c3) = if form == 1 { ("Words(-1)", "Words(4)") } else { ("Words(1)", "Words(3)") };
+                let old = "Words(1)";
                 out.push((
                     format!("{head}{first}\n{old} = {v1}\nPRINT {old};\n{second}\n{c3} = {v2}\n{c1} = {v1}\nPRINT {c3}\nPRINT \"done\"\n", head = head, first = first, old = old, v1 = v1, second = second, c3 = c3, v2 = v2, c1 = c1),
                     format!("{}\r\ndone\r\n", shown),
@@ -1013,7 +1014,7 @@ pub fn drive(tier: &str) -> i32 {
     }
     groups.push(super::run_text_group(&mut run, &pool, "statement templates x operand menu: soundness, renaming", &stmts, 40, &extra));
     let mut ev = Evidence::new("exploration");
-    ev.set("rule", "typed: every operand, unary and binary expression (13 operators) over 10 (thorough 18) operands of all kinds (a whole record, literals, variables of every numeric type, strings, fixed-length strings as variable / array element / record member, array elements, user FUNCTION results, built-in results) in 66 syntactic positions (the 23 core positions with all 13 binary operators, the others with + < AND MOD) (assignments to every kind of target, PRINT list, parentheses, IF / WHILE / DO conditions, SELECT subject, CASE lists, FOR start / limit / step, array subscripts and bounds, the subscript of an array-of-records element read and assigned through a field, by-value SUB arguments, FUNCTION arguments inside a subscript, built-in arguments, ELSEIF / single-line IF / DO conditions, CASE IS and both ends of a CASE range, PRINT USING / LPRINT lists, REDIM and lower bounds, second and nested subscripts, subscripts of READ / INPUT / INPUT # / LINE INPUT targets and of a FOR counter, the arguments of the file statements (OPEN name and LEN, FIELD width, LSET value, GET / PUT record number, KILL, NAME) and of LOCATE / COLOR / VIEW PRINT / DEF SEG / POKE / PEEK / ENVIRON): a kind model (numeric / string / ill-kinded) decides which programs must be rejected with a type error in the statement that holds the expression; accepted programs are executed and must not raise Type mismatch (13) nor panic. calls: 9 ill-formed calls of user-defined and built-in functions (argument count, argument type, by-reference type) bare, in parentheses, as an operand, inside a subscript and as an argument, in each of the 66 positions: rejected with the matching error at the statement's row. call-pairs: 10 pairs (a valid call, an ill-formed call of the same subprogram whose arguments have the same static types) in the orders valid-invalid, invalid-valid, valid-valid-invalid: the ill-formed call is rejected at its row whatever precedes it. byref: 22 operands (INTEGER / string / other numeric storage as variable, record member, array element, member of an array-of-records element; whole records, array names without subscripts) passed without parentheses in 8 call forms to INTEGER and STRING parameters: storage of the parameter's type is accepted and runs, storage of another type is rejected with a type error at the row, for whole records / arrays only soundness is judged. redim-type: REDIM x(...) AS each of 5 types, then a REDIM of x that leaves the type out (same shape, two dimensions, SHARED) under 6 default-type settings: accepted, and the element type is kept (expected output). corpus: every harvested text, generated control program and statement template is run (soundness oracle outside READ / INPUT / PRINT USING statements), renamed consistently in three ways (every user-chosen word component gets a suffix, first letter and type suffix kept — twice; every first letter replaced by the next letter that has the same default type under the program's DEFtype statements): same verdict and output; every accepted one is edited once at every applicable site (numeric literal next to * or / -> string literal, GOTO / GOSUB target -> missing label, NEXT counter -> another name, label line / DIM line duplicated, one more argument in a SUB call): rejected, and where the error is of the edit's family it is located at the edited row.");
+    ev.set("rule", "typed: every operand, unary and binary expression (13 operators) over 10 (thorough 18) operands of all kinds (a whole record, literals, variables of every numeric type, strings, fixed-length strings as variable / array element / record member, array elements, user FUNCTION results, built-in results) in 66 syntactic positions (the 23 core positions with all 13 binary operators, the others with + < AND MOD) (assignments to every kind of target, PRINT list, parentheses, IF / WHILE / DO conditions, SELECT subject, CASE lists, FOR start / limit / step, array subscripts and bounds, the subscript of an array-of-records element read and assigned through a field, by-value SUB arguments, FUNCTION arguments inside a subscript, built-in arguments, ELSEIF / single-line IF / DO conditions, CASE IS and both ends of a CASE range, PRINT USING / LPRINT lists, REDIM and lower bounds, second and nested subscripts, subscripts of READ / INPUT / INPUT # / LINE INPUT targets and of a FOR counter, the arguments of the file statements (OPEN name and LEN, FIELD width, LSET value, GET / PUT record number, KILL, NAME) and of LOCATE / COLOR / VIEW PRINT / DEF SEG / POKE / PEEK / ENVIRON): a kind model (numeric / string / ill-kinded) decides which programs must be rejected with a type error in the statement that holds the expression; accepted programs are executed and must not raise Type mismatch (13) nor panic. calls: 9 ill-formed calls of user-defined and built-in functions (argument count, argument type, by-reference type) bare, in parentheses, as an operand, inside a subscript and as an argument, in each of the 66 positions: rejected with the matching error at the statement's row. call-pairs: 10 pairs (a valid call, an ill-formed call of the same subprogram whose arguments have the same static types) in the orders valid-invalid, invalid-valid, valid-valid-invalid: the ill-formed call is rejected at its row whatever precedes it. byref: 22 operands (INTEGER / string / other numeric storage as variable, record member, array element, member of an array-of-records element; whole records, array names without subscripts) passed without parentheses in 8 call forms to INTEGER and STRING parameters: storage of the parameter's type is accepted and runs, storage of another type is rejected with a type error at the row, for whole records / arrays only soundness is judged. redim-type: REDIM x(...) AS each of 5 types, then a REDIM of x that leaves the type out (same lower bound, another lower bound, SHARED) under 6 default-type settings: accepted, and the element type is kept (expected output). corpus: every harvested text, generated control program and statement template is run (soundness oracle outside READ / INPUT / PRINT USING statements), renamed consistently in three ways (every user-chosen word component gets a suffix, first letter and type suffix kept — twice; every first letter replaced by the next letter that has the same default type under the program's DEFtype statements): same verdict and output; every accepted one is edited once at every applicable site (numeric literal next to * or / -> string literal, GOTO / GOSUB target -> missing label, NEXT counter -> another name, label line / DIM line duplicated, one more argument in a SUB call): rejected, and where the error is of the edit's family it is located at the edited row.");
     ev.set("exhaustive", !run.capped);
     ev.set("groups", json!(groups));
     ev.set("plan", json!({"typed_expressions": nexpr, "positions": CONTEXTS.len(), "ill_formed_calls": ctotal}));
